@@ -5,12 +5,12 @@
 package run
 
 import (
-	"syscall"
 	"fmt"
 	"os"
 	"runtime/debug"
 	"sort"
 	"strings"
+	"syscall"
 )
 
 // Sub is one sub-monitor of a property: a deterministic, indexable list of
@@ -293,12 +293,15 @@ func envOr(k, d string) string {
 // RepoDir is the directory of the library under test.
 func RepoDir() string { return envOr("VERIF_REPO", "/repo") }
 
-// ProcessCPU returns the CPU time (user + system, seconds) this process has
-// used so far. Monitors use differences of it as a load-independent measure of
-// the work a case caused (never the wall clock).
-func ProcessCPU() float64 {
+// ThreadCPU returns the CPU time (user + system, seconds) the calling OS thread
+// has used so far. Monitors use differences of it, taken on a goroutine locked
+// to its thread, as a load-independent measure of the work a case caused (never
+// the wall clock; not the process's CPU time either, which includes the
+// garbage collector's background workers on all cores).
+func ThreadCPU() float64 {
 	var ru syscall.Rusage
-	if syscall.Getrusage(syscall.RUSAGE_SELF, &ru) != nil {
+	const rusageThread = 1 // RUSAGE_THREAD (Linux)
+	if syscall.Getrusage(rusageThread, &ru) != nil {
 		return 0
 	}
 	return float64(ru.Utime.Sec+ru.Stime.Sec) + float64(ru.Utime.Usec+ru.Stime.Usec)/1e6
